@@ -59,6 +59,11 @@ impl CQueueLLAllocatorInner {
             Layout::from_size_align(self.page_size, self.page_size).expect("page layout invalid"),
         );
         self.pages.push(block);
+        #[cfg(petrichorit_des_verif)]
+        verif::emit(verif::AllocEvent::Page {
+            base: block as usize,
+            len: self.page_size,
+        });
         self.add_free_region(block as usize, self.page_size);
     }
 
@@ -166,6 +171,10 @@ impl Drop for CQueueLLAllocatorInner {
         for page in &self.pages {
             unsafe { alloc::dealloc(*page, layout) }
         }
+        #[cfg(petrichorit_des_verif)]
+        verif::emit(verif::AllocEvent::Release {
+            pages: self.pages.iter().map(|p| *p as usize).collect(),
+        });
     }
 }
 
@@ -201,6 +210,12 @@ impl CQueueLLAllocator {
                     }
                 }
                 allocator.allocated_mem += size;
+                #[cfg(petrichorit_des_verif)]
+                verif::emit(verif::AllocEvent::Alloc {
+                    addr: alloc_start,
+                    size,
+                    align,
+                });
                 Ok(alloc_start as *mut u8)
             }
         } else {
@@ -211,7 +226,105 @@ impl CQueueLLAllocator {
     pub unsafe fn deallocate(&mut self, ptr: NonNull<u8>, layout: Layout) {
         let (size, _) = CQueueLLAllocatorInner::size_align(layout);
         let allocator = unsafe { &mut *self.inner };
+        #[cfg(petrichorit_des_verif)]
+        verif::emit(verif::AllocEvent::Dealloc {
+            addr: ptr.as_ptr() as usize,
+            size,
+        });
         allocator.allocated_mem -= size;
         allocator.add_free_region(ptr.as_ptr() as usize, size);
+    }
+}
+
+/// Verification hooks (compiled only with `--cfg petrichorit_des_verif`).
+///
+/// Reports every page / allocation / deallocation of the calendar-queue allocator to an observer
+/// installed by a test harness, and exposes the allocator for direct use.
+#[cfg(petrichorit_des_verif)]
+pub mod verif {
+    use super::{CQueueLLAllocator, CQueueLLAllocatorInner};
+    use std::alloc::Layout;
+    use std::cell::RefCell;
+    use std::ptr::NonNull;
+
+    /// One allocator-level event.
+    #[derive(Debug, Clone, PartialEq, Eq)]
+    pub enum AllocEvent {
+        /// A page was acquired from the system allocator.
+        Page { base: usize, len: usize },
+        /// A region was handed out (size/align after adjustment).
+        Alloc { addr: usize, size: usize, align: usize },
+        /// A region was returned.
+        Dealloc { addr: usize, size: usize },
+        /// All pages of an allocator (given by their base addresses) were returned to the system allocator.
+        Release { pages: Vec<usize> },
+    }
+
+    type Observer = Box<dyn FnMut(AllocEvent)>;
+
+    thread_local! {
+        static OBSERVER: RefCell<Option<Observer>> = const { RefCell::new(None) };
+    }
+
+    /// Installs an observer for the current thread, returning the previous one.
+    pub fn set_observer(obs: Option<Observer>) -> Option<Observer> {
+        OBSERVER.with(|o| std::mem::replace(&mut *o.borrow_mut(), obs))
+    }
+
+    pub(crate) fn emit(ev: AllocEvent) {
+        OBSERVER.with(|o| {
+            if let Ok(mut o) = o.try_borrow_mut() {
+                if let Some(f) = o.as_mut() {
+                    f(ev);
+                }
+            }
+        });
+    }
+
+    /// Direct access to a calendar-queue allocator with a chosen page size.
+    pub struct RawAllocator {
+        inner: Box<CQueueLLAllocatorInner>,
+        handle: CQueueLLAllocator,
+    }
+
+    impl RawAllocator {
+        /// Creates an allocator with one initial page.
+        #[must_use]
+        pub fn new(page_size: usize) -> Self {
+            let mut inner = Box::new(CQueueLLAllocatorInner::with_page_size(page_size));
+            let handle = inner.handle();
+            Self { inner, handle }
+        }
+
+        /// See `CQueueLLAllocator::allocate`.
+        ///
+        /// # Errors
+        ///
+        /// Fails if the adjusted size exceeds the page size.
+        pub fn allocate(&mut self, layout: Layout) -> Result<usize, ()> {
+            self.handle.allocate(layout).map(|p| p as usize)
+        }
+
+        /// See `CQueueLLAllocator::deallocate`.
+        ///
+        /// # Safety
+        ///
+        /// `addr`/`layout` must stem from a previous `allocate` that was not yet deallocated.
+        pub unsafe fn deallocate(&mut self, addr: usize, layout: Layout) {
+            self.handle
+                .deallocate(NonNull::new(addr as *mut u8).expect("null"), layout);
+        }
+
+        /// Bytes currently handed out.
+        #[must_use]
+        pub fn allocated_mem(&self) -> usize {
+            self.inner.allocated_mem
+        }
+
+        /// Base addresses of all pages.
+        #[must_use]
+        pub fn pages(&self) -> Vec<usize> {
+            self.inner.pages.iter().map(|p| *p as usize).collect()
+        }
     }
 }
